@@ -233,6 +233,7 @@ impl DcpsDomainParticipant {
             for key in unmatched_reader_list {
                 data_writer.remove_matched_subscription(&InstanceHandle::new(key));
                 data_writer.transport_writer.delete_matched_reader(key.into());
+                data_writer.notify_if_all_changes_acknowledged();
                 data_writer
                     .status_condition
                     .add_communication_state(crate::infrastructure::status::StatusKind::PublicationMatched);
